@@ -348,53 +348,124 @@ class Prop(SeqProp):
         return "ok"
 
     def recfile(self, rng):
+        """a mutable record file edited, saved and reopened — oracle-only.  The source file holds lines that load to the
+        records but are not what `save()` would write (needless quotes, other separators / key order / spaces in JSON):
+        lines that were not edited are written by `save()` as they stand in the source, edited ones as the record's `save()`
+        text; record objects are re-used and changed by the caller after they were handed over (the file keeps the record as
+        it was at that moment) and records read from the file are changed by the caller (the file is not affected)."""
+        import copy
+        import json
         from windpyutils import files
         cl = classes()
-        name = rng.choice(["C2", "T3", "CT", "C3D", "CTD"])
+        name = rng.choice(["C2", "T3", "CT", "C3D", "CTD", "J", "JD"])
         R = cl[name]
+        is_json = name in ("J", "JD")
 
         def mkrec():
             if name == "CT":
                 return R(rng.randint(-99, 99), gen_float(rng), gen_str(rng))
             if name == "CTD":
                 return R(rng.randint(-99, 99), gen_float(rng), gen_str(rng), gen_str(rng))
+            if name == "J":
+                return R(gen_json(rng, 1), gen_json(rng, 2), gen_str(rng))
+            if name == "JD":
+                return R(gen_json(rng, 1), gen_json(rng, 2), gen_str(rng), gen_json(rng, 2))
             return R(*[gen_str(rng) for _ in range(STRCLS[name][1])])
 
+        def change(r):
+            """the caller goes on using a record object it handed over / got back"""
+            fld = list(r.__dataclass_fields__)[0]
+            v = getattr(r, fld)
+            setattr(r, fld, (v + "~") if isinstance(v, str) else (v + 1) if isinstance(v, int) and not isinstance(v, bool) else "~")
+
+        def source_line(r):
+            """a line that loads to r; often not the text r.save() gives"""
+            canon = r.save().rstrip("\r\n")
+            q = rng.random()
+            if is_json:
+                d = json.loads(canon)
+                if q < 0.3:
+                    return canon
+                if q < 0.5:
+                    return json.dumps(d, ensure_ascii=False)  # spaces after separators, raw non-ASCII
+                if q < 0.7:
+                    return json.dumps(dict(reversed(list(d.items()))), separators=(",", ":"))  # other key order
+                if q < 0.85:
+                    return json.dumps(dict(d, zz_unknown=1), separators=(", ", ": "))  # a key the record class does not have
+                return " " + canon + " "
+            if q < 0.4 or name in ("CT", "CTD"):
+                return canon
+            delim = "\t" if name.startswith("T") else ","
+            fields = [getattr(r, f) for f in r.__dataclass_fields__]
+            return delim.join('"' + f.replace('"', '""') + '"' for f in fields)  # every field quoted, needed or not
+
         ref = [mkrec() for _ in range(rng.randint(0, 5))]
+        raws = [source_line(r) for r in ref]
+        if any("\n" in x or "\r" in x for x in raws):
+            raws = [r.save().rstrip("\r\n") for r in ref]
         src = self.path("rec_src.txt")
-        with open(src, "w", newline="") as fh:
-            for r in ref:
-                fh.write(r.save().rstrip("\r\n") + "\n")
+        with open(src, "w", newline="", encoding="utf-8") as fh:
+            for x in raws:
+                fh.write(x + "\n")
+        src_bytes = open(src, "rb").read()
         for cls in (files.MutableRecordFile, files.MutableMemoryMappedRecordFile):
             if not ref and "MemoryMapped" in cls.__name__:
                 continue
-            cur = list(ref)
+            cur = [(copy.deepcopy(r), raw) for r, raw in zip(ref, raws)]  # (record, source text or None when edited)
+            recs = lambda: [c[0] for c in cur]
+            ending = rng.choice(["\n", "\n", "\r\n"])
             with cls(src, R) as f:
-                if list(f) != cur or [f[i] for i in range(len(cur))] != cur or f[0:len(cur):2] != cur[0::2]:
-                    return f"fail recfile read {cls.__name__}"
+                if list(f) != recs() or [f[i] for i in range(len(cur))] != recs() or f[0:len(cur):2] != recs()[0::2]:
+                    return f"fail recfile read {cls.__name__}: {list(f)!r} != {recs()!r} (source lines {raws!r})"
+                handed = None
                 for _ in range(rng.randint(1, 8)):
                     q = rng.random()
-                    r = mkrec()
+                    if handed is not None and rng.random() < 0.4:
+                        r = handed  # the same object again, changed in between
+                        change(r)
+                    else:
+                        r = mkrec()
+                    snap = (copy.deepcopy(r), None)
                     if q < 0.3 and cur:
-                        i = rng.randrange(len(cur)); f[i] = r; cur[i] = r
+                        i = rng.randrange(len(cur)); f[i] = r; cur[i] = snap; handed = r
                     elif q < 0.5:
-                        i = rng.randint(0, len(cur)); f.insert(i, r); cur.insert(i, r)
+                        i = rng.randint(0, len(cur)); f.insert(i, r); cur.insert(i, snap); handed = r
                     elif q < 0.7:
-                        f.append(r); cur.append(r)
-                    elif q < 0.85 and cur:
+                        f.append(r); cur.append(snap); handed = r
+                    elif q < 0.8 and cur:
                         i = rng.randrange(len(cur)); del f[i]; del cur[i]
+                    elif q < 0.9 and cur:
+                        i = rng.randrange(len(cur))
+                        got = f[i]
+                        if got != cur[i][0]:
+                            return f"fail recfile item {cls.__name__}: f[{i}] is {got!r}, expected {cur[i][0]!r}"
+                        change(got)  # the caller's copy of a record it read: the file keeps its own
                     elif cur:
+                        # MutableSequence.reverse swaps through __getitem__ / __setitem__: every position is written with the
+                        # record it holds, so from here on every line is the save() text of its record
                         f.reverse(); cur.reverse()
-                    if list(f) != cur:
-                        return f"fail recfile edit {cls.__name__}"
+                        if len(cur) > 1:
+                            cur = [(r_, None) if (len(cur) % 2 == 0 or k != len(cur) // 2) else (r_, raw_)
+                                   for k, (r_, raw_) in enumerate(cur)]
+                    if list(f) != recs():
+                        return f"fail recfile edit {cls.__name__}: {list(f)!r} != {recs()!r}"
                 dst = self.path("rec_dst.txt")
-                f.save(dst)
-            for cls2 in (files.RecordFile, files.MemoryMappedRecordFile, files.MutableRecordFile):
-                if not cur and "MemoryMapped" in cls2.__name__:
-                    continue
-                with cls2(dst, R) as g:
-                    if list(g) != cur or len(g) != len(cur):
-                        return f"fail recfile reopen {cls.__name__}->{cls2.__name__}: {list(g)!r} != {cur!r}"
+                f.save(dst, ending) if ending != "\n" else f.save(dst)
+            want = "".join((raw if raw is not None else r.save().rstrip("\n")) + ending for r, raw in cur)
+            with open(dst, "r", newline="", encoding="utf-8") as fh:
+                got_text = fh.read()
+            if got_text != want:
+                return (f"fail recfile saved bytes {cls.__name__}: save() wrote {got_text!r}, the lines are {want!r} "
+                        f"(source lines kept as they are, edited lines as their save() text)")
+            if open(src, "rb").read() != src_bytes:
+                return f"fail recfile source changed {cls.__name__}"
+            if ending == "\n":
+                for cls2 in (files.RecordFile, files.MemoryMappedRecordFile, files.MutableRecordFile):
+                    if not cur and "MemoryMapped" in cls2.__name__:
+                        continue
+                    with cls2(dst, R) as g:
+                        if list(g) != recs() or len(g) != len(cur):
+                            return f"fail recfile reopen {cls.__name__}->{cls2.__name__}: {list(g)!r} != {recs()!r}"
         return "ok"
 
     # ---- oracle ------------------------------------------------------------------------------------------------------------
@@ -413,7 +484,7 @@ class Prop(SeqProp):
             w = op.split()
             if w[0] in ("typed", "json", "recfile"):
                 if line != "ok":
-                    return f"op {i} `{op}`: {line[:400]}"
+                    return f"op {i} `{op}`: {line[:1500]}"
             elif w[0] in ("save", "write"):
                 if "load-mismatch" in line:
                     return f"op {i} `{op}`: load(save(r)) != r"
